@@ -147,3 +147,22 @@ type WEmb struct {
 	WReq  `valid:"exist"`
 	N     int `valid:"ge=5|T83"`
 }
+
+// containers of pointers to pointers to structs
+type WPPC struct {
+	S []**WReq          `valid:"required|T71"`
+	A [1]**WReq         `valid:"required|T72"`
+	M map[string]**WReq `valid:"required|T73"`
+	E []**WReq          `valid:"exist"`
+}
+
+// one field in two groups of different kinds; group ids and messages that mention the other kind
+type WG2 struct {
+	A string `valid:"either=1,botheq=2"`
+	B string `valid:"either=1"`
+	C string `valid:"botheq=2"`
+	P string `valid:"botheq=either_pwd"`
+	Q string `valid:"botheq=either_pwd"`
+	X string `valid:"either=botheq_x"`
+	Y string `valid:"either=botheq_x"`
+}
